@@ -17,4 +17,10 @@ for l in open(os.path.join(base, 'properties.jsonl')):
             dirs.add(d)
     out.append('\t"%s": {%s},' % (p['id'], ', '.join('"%s"' % d for d in sorted(dirs))))
 out.append('}')
+out += ['', '// anchorFiles: the files (or directories) each property names as its anchors.', 'var anchorFiles = map[string][]string{']
+for l in open(os.path.join(base, 'properties.jsonl')):
+    p = json.loads(l)
+    fs = sorted({f.split(' ')[0].strip().rstrip('/') for f in p['anchors']['files'] if os.path.exists('/repo/' + f.split(' ')[0].strip())})
+    out.append('\t"%s": {%s},' % (p['id'], ', '.join('"%s"' % f for f in fs)))
+out.append('}')
 open(os.path.join(base, 'checker/anchors_gen.go'), 'w').write('\n'.join(out) + '\n')
